@@ -413,7 +413,7 @@ builder("ts_pointer_event", "r.message", props=("C04", "C11"), fuel=5,
 builder("ts_keyboard_event", "r.message", props=("C04", "C11"), fuel=5,
         extra=[("C11", "type", "r.event_type is InputEventScancode"), ("C04,C11", "bytes", "ser(r.message.mv()) =~= le16(o16(flags, 0)) + le16(o16(key_code, 0)) + le16(0)")])
 # Verus crashes (mk_range) on arithmetic applied to a reference: `header >> 4` with header: &u8 is spelled with the explicit deref
-builder("ts_fp_update", "c", ret="c", props=("C06", "C10"), keys=True, body_sub=[(r"\(header >> 4\)", "(*header >> 4)")],
+builder("ts_fp_update", "c", ret="c", props=("C06", "C10"), keys=True, body_sub=[(r"\(header >> (\w+)\)", r"(*header >> \1)")],
         # #1: as-implemented (differs from MS-RDPBCGR 2.2.9.1.2.1: compression is bits 6-7, the code tests bit 5 = fragmentation); #2 from the document: updateData has `size` bytes
         closures={1: dict(params="header: &u8", ret=MO, props="C06,C10", cid="as-implemented (differs from MS-RDPBCGR 2.2.9.1.2.1: compression is bits 6-7)",
                           spec='ensures r.ov() == (if (*header >> 4) & 0x2 == 0 { OV::Skip("compressionFlags"@) } else { OV::None })'),
